@@ -12,4 +12,6 @@ for pid in "$@"; do
   echo "$out" | grep -E "tier="
 done
 git -C /repo worktree remove --force $wt
+# the printed sources are those of /repo again
+(cd /verif && python3 anchors/gen_anchors.py >/dev/null 2>&1)
 (cd /verif/harness && sh gen_gomod.sh >/dev/null 2>&1; GOFLAGS=-mod=mod GOPROXY=off GOSUMDB=off GOTOOLCHAIN=local go build -tags verif -o bin/harness ./cmd/harness)
